@@ -37,6 +37,8 @@ func main() {
 		cmdRepoTrace(os.Args[2:])
 	case "witness":
 		cmdWitness(os.Args[2:])
+	case "formats":
+		cmdFormats(os.Args[2:])
 	case "rules":
 		cmdRules(os.Args[2:])
 	default:
